@@ -73,7 +73,7 @@ def run(ck):
         any(e["k"] == "throw" and "invalid_argument" in (e.get("type") or "") for e in cfg.events_from_block(pc, et[0].succs[0], stop=lambda e: e["k"] == "throw"))
     ck.ob("C19-R2", "Port::Port/empty-rejected-before-conversion", ok, pc.loc, pc, "data.empty() throws invalid_argument before strtol")
     ai = targets[0]
-    pe = [b for b in ai.blocks.values() if b.term and b.term.get("k") == "if" and "empty" in (b.term.get("cond") or "") and (b.term.get("core") or {}).get("root") == "portPart"]
+    pe = [b for b in ai.blocks.values() if b.term and b.term.get("k") == "if" and "empty" in (b.term.get("cond") or "") and (b.term.get("core") or {}).get("root") in {x["var"] for x in ai.events("decl") if x.get("icall") == P + "AddressParser::rawPort"}]
     hc = [b for b in ai.blocks.values() if b.term and b.term.get("k") == "if" and "c:" + P + "AddressParser::hasColon" in (b.term.get("refs") or [])]
     ok = bool(pe) and bool(hc) and cfg.edge_dominates(ai, pe[0].id, 0, hc[0].elems[-1] if hc[0].elems else None) if (pe and hc and hc[0].elems) else False
     thr = [e for e in cfg.events_from_block(ai, hc[0].succs[0], stop=lambda e: e["k"] == "throw") if e["k"] == "throw" and "invalid_argument" in (e.get("type") or "")] if hc else []
